@@ -49,9 +49,18 @@ fn err_name(e: &image_webp::DecodingError) -> String {
 }
 
 /// the canonical accessor record of the real decoder (same text as the driver's `open`)
-pub fn real_record(file: &[u8], limit: usize) -> String {
+pub fn real_record(file: &[u8], limit: usize) -> String { real_record_at(file, limit, 0, 0) }
+
+/// the same through a reader in which the file is embedded: `prefix` bytes before it, `suffix`
+/// bytes after it, positioned at the file's first byte when the decoder is created
+pub fn real_record_at(file: &[u8], limit: usize, prefix: usize, suffix: usize) -> String {
     let r = catch(|| {
-        let mut d = match WebPDecoder::new(Cursor::new(file.to_vec())) {
+        let mut stream: Vec<u8> = (0..prefix).map(|i| (i * 31 + 7) as u8).collect();
+        stream.extend_from_slice(file);
+        stream.extend((0..suffix).map(|i| (i * 17 + 3) as u8));
+        let mut cur = Cursor::new(stream);
+        cur.set_position(prefix as u64);
+        let mut d = match WebPDecoder::new(cur) {
             Ok(d) => d,
             Err(e) => return format!("err {}", err_name(&e)),
         };
@@ -295,7 +304,18 @@ fn one(drv: &mut Drv, rep: &mut Report, d: &Desc, limit: usize) {
         return;
     }
     if got != model {
-        rep.disagree(Disagreement { case: line, got, expected: model, class: "correspondence", obligation: "tie2: WebPDecoder::new + accessors = Container.openFile".into(), detail: format!("layout {}", d.kind) });
+        rep.disagree(Disagreement { case: line.clone(), got: got.clone(), expected: model, class: "correspondence", obligation: "tie2: WebPDecoder::new + accessors = Container.openFile".into(), detail: format!("layout {}", d.kind) });
+    }
+    // the file embedded in a larger stream (the reader positioned at its first byte): what the
+    // headers define does not depend on where the file starts
+    let k = d.file.len();
+    for prefix in [1usize, 64 + k % 7, 4096] {
+        let emb = real_record_at(&d.file, limit, prefix, 0);
+        rep.hit("file_embedded_at_an_offset");
+        if emb != got {
+            rep.disagree(Disagreement { case: format!("{line} (embedded after {prefix} bytes)"), got: emb, expected: got.clone(), class: "violation", obligation: "C08: accessors equal the values the file's headers define - also when the file is read from a reader positioned at its first byte inside a larger stream".into(), detail: format!("layout {}; {prefix} bytes before the file", d.kind) });
+            break;
+        }
     }
 }
 
